@@ -2,6 +2,8 @@ import GarbleVerif.Proofs.BitCore
 import GarbleVerif.Proofs.BitShape
 import GarbleVerif.Proofs.BitMatch
 import GarbleVerif.Proofs.BitAgg
+import GarbleVerif.Proofs.BeqEncode
+import GarbleVerif.Proofs.BitIndex
 import GarbleVerif.Proofs.MatchComplete
 /-!
 # The bit-level evaluation of the core fragment refines the source semantics
@@ -408,6 +410,61 @@ theorem arms_ok (prog : Prog) (call : Ctx) (N : Nat) (ihLow : ∀ f, f ≤ N →
               rw [armOut_eq_restoreB bb benv1 enve hse]
               exact EnvRel.restore henv henv2
 
+/-- `==` / `!=` on aggregates: comparing all wires is structural equality of the values -/
+theorem aggEq_ok (prog : Prog) (call : Ctx) (fuel : Nat) (ihE : ExprOK prog call fuel) (op : Src.BinOp) (ty : Ty) (a b : Expr)
+    (env : Src.Env) (benv : BEnv) (t : VTy) (bs : List Bool) (p : P) (benv' : BEnv) (henv : EnvRel env benv)
+    (h : aggEq op ty (bitExpr call benv a) (fun env1 => bitExpr call env1 b) = some (t, bs, p, benv')) :
+    ResRel (evalExpr (fuel + 1) prog env (.bin op ty a b)) t bs p benv' := by
+  unfold aggEq at h
+  split at h
+  · rename_i hop
+    split at h
+    · rename_i ta x p1 env1 ha
+      split at h
+      · rename_i tb y p2 env2 hb
+        split at h
+        · rename_i hty
+          obtain ⟨rfl, rfl⟩ := hty
+          simp only [Option.some.injEq, Prod.mk.injEq] at h
+          obtain ⟨rfl, rfl, rfl, rfl⟩ := h
+          have iha := ihE a env benv _ _ _ _ henv ha
+          rw [evalExpr_bin _ _ _ _ _ _ _ (by rcases hop with rfl | rfl <;> decide) (by rcases hop with rfl | rfl <;> decide)]
+          cases hev : evalExpr fuel prog env a with
+          | error er => rw [hev] at iha; exact iha.error_of (fun p => seqP p _) (fun _ => rfl)
+          | ok res =>
+            obtain ⟨va, enva⟩ := res
+            rw [hev] at iha
+            obtain ⟨rfl, hra, henv1⟩ := iha
+            have ihb := ihE b enva env1 _ _ _ _ henv1 hb
+            dsimp only
+            cases hevb : evalExpr fuel prog enva b with
+            | error er => rw [hevb] at ihb; exact ihb.error_of (fun p => seqP none p) (fun _ => rfl)
+            | ok resb =>
+              obtain ⟨vb, envb⟩ := resb
+              rw [hevb] at ihb
+              obtain ⟨rfl, hrb, henv2⟩ := ihb
+              obtain ⟨ha1, rfl⟩ := hra
+              obtain ⟨hb1, rfl⟩ := hrb
+              have hlen : (va.encode tb).length = (vb.encode tb).length := by
+                rw [Val.encode_length va tb ha1, Val.encode_length vb tb hb1]
+              have hiff := Arith.eqBits_iff (va.encode tb) (vb.encode tb) hlen
+              have hbe := beq_encode va vb tb ha1 hb1
+              have heq : Arith.eqBits (va.encode tb) (vb.encode tb) = Val.beq va vb := by
+                cases hc : Val.beq va vb
+                · cases hd : Arith.eqBits (va.encode tb) (vb.encode tb)
+                  · rfl
+                  · have := hbe.mpr (hiff.mp hd); rw [hc] at this; exact absurd this (by simp)
+                · exact hiff.mpr (hbe.mp hc)
+              rcases hop with rfl | rfl
+              · simp only [Src.binop, ResRel, seqP, if_true, heq]
+                exact ⟨trivial, by simp [VRel, Rel], henv2⟩
+              · simp only [Src.binop, ResRel, seqP, heq]
+                exact ⟨trivial, by simp [VRel, Rel], henv2⟩
+        · simp at h
+      · simp at h
+    · simp at h
+  · simp at h
+
 theorem exprOK_succ (prog : Prog) (call : Ctx) (fuel : Nat) (ihE : ExprOK prog call fuel) (ihS : StmtsOK prog call fuel)
     (ihLow : ∀ f, f ≤ fuel → ExprOK prog call f) (ihL : ListOK prog call fuel) (hcall : CallSound prog call fuel)
     (ihF : FieldsOK prog call fuel) :
@@ -794,7 +851,7 @@ theorem exprOK_succ (prog : Prog) (call : Ctx) (fuel : Nat) (ihE : ExprOK prog c
             dsimp only
             exact litMul_res_rel k n0 hpos y va enva _ hra henv1 false
       · split at hb
-        · simp at hb
+        · exact aggEq_ok prog call fuel ihE _ ty a b env benv t bs p benv' henv hb
         · rename_i t' hty
           split at hb
           · rename_i ta x p1 env1 ha
@@ -838,7 +895,7 @@ theorem exprOK_succ (prog : Prog) (call : Ctx) (fuel : Nat) (ihE : ExprOK prog c
       · rename_i heq; simp at heq
       · rename_i heq; simp at heq
       split at hb
-      · simp at hb
+      · exact aggEq_ok prog call fuel ihE _ ty a b env benv t bs p benv' henv hb
       · rename_i t' hty
         split at hb
         · rename_i ta x p1 env1 ha
@@ -1103,32 +1160,42 @@ theorem exprOK_succ (prog : Prog) (call : Ctx) (fuel : Nat) (ihE : ExprOK prog c
     · rename_i te n abits pa env1 ha
       split at hb
       · rename_i ibits pi env2 hi
-        simp only [Option.some.injEq, Prod.mk.injEq] at hb
-        obtain ⟨rfl, rfl, rfl, rfl⟩ := hb
-        have iha := ihE a env benv _ _ _ _ henv ha
-        rw [evalExpr]
-        cases hev : evalExpr fuel prog env a with
-        | error er => rw [hev] at iha; exact iha.error_of (fun p => seqP p _) (fun _ => rfl)
-        | ok res =>
-          obtain ⟨va, enva⟩ := res
-          rw [hev] at iha
-          obtain ⟨rfl, hrela, henv1⟩ := iha
-          obtain ⟨vs, rfl, hin, hout⟩ := VRel.index hrela
-          have ihi := ihE i enva env1 _ _ _ _ henv1 hi
-          simp only
-          cases hei : evalExpr fuel prog enva i with
-          | error er => rw [hei] at ihi; exact ihi.error_of (fun p => seqP none (seqP p _)) (fun _ => rfl)
-          | ok res2 =>
-            obtain ⟨vi, envb⟩ := res2
-            rw [hei] at ihi
-            obtain ⟨rfl, hreli, henv2⟩ := ihi
-            obtain ⟨m, rfl, hm0, hmn⟩ := Rel.usize_index hreli
-            simp only [show ¬ m < 0 by omega, if_false, hmn]
-            rcases Nat.lt_or_ge m.toNat n with hlt | hge
-            · obtain ⟨ve, hg, hve⟩ := hin m.toNat hlt
-              simp only [hg, hlt, if_true, ResRel, seqP]
-              exact ⟨trivial, hve, henv2⟩
-            · simp only [hout m.toNat hge, ResRel, seqP, show ¬ m.toNat < n by omega, if_false]
+        split at hb
+        · rename_i hn
+          simp only [Option.some.injEq, Prod.mk.injEq] at hb
+          obtain ⟨rfl, rfl, rfl, rfl⟩ := hb
+          have iha := ihE a env benv _ _ _ _ henv ha
+          rw [evalExpr]
+          cases hev : evalExpr fuel prog env a with
+          | error er => rw [hev] at iha; exact iha.error_of (fun p => seqP p _) (fun _ => rfl)
+          | ok res =>
+            obtain ⟨va, enva⟩ := res
+            rw [hev] at iha
+            obtain ⟨rfl, hrela, henv1⟩ := iha
+            have hal : abits.length = n * te.size := by
+              have := hrela.length
+              simpa [VTy.toTy, Ty.size, Nat.mul_comm] using this
+            obtain ⟨vs, rfl, hin, hout⟩ := VRel.index hrela
+            have ihi := ihE i enva env1 _ _ _ _ henv1 hi
+            simp only
+            cases hei : evalExpr fuel prog enva i with
+            | error er => rw [hei] at ihi; exact ihi.error_of (fun p => seqP none (seqP p _)) (fun _ => rfl)
+            | ok res2 =>
+              obtain ⟨vi, envb⟩ := res2
+              rw [hei] at ihi
+              obtain ⟨rfl, hreli, henv2⟩ := ihi
+              obtain ⟨m, rfl, hm0, hmn⟩ := Rel.usize_index hreli
+              simp only [show ¬ m < 0 by omega, if_false, index_lt ibits n hn, hmn]
+              rcases Nat.lt_or_ge m.toNat n with hlt | hge
+              · obtain ⟨ve, hg, hve⟩ := hin m.toNat hlt
+                have hsel := index_sel te.size n abits ibits hal (by rw [← bitsToNat_eq_toNat, hmn]; exact hlt)
+                rw [← bitsToNat_eq_toNat, hmn] at hsel
+                simp only [hg, hlt, decide_true, if_true, ResRel, seqP]
+                rw [hsel]
+                exact ⟨trivial, hve, henv2⟩
+              · simp only [hout m.toNat hge, ResRel, seqP, show ¬ m.toNat < n by omega, decide_false,
+                  Bool.false_eq_true, if_false]
+        · simp at hb
       · simp at hb
     · simp at hb
   | struct name fs =>
@@ -1367,54 +1434,70 @@ theorem pathOK_succ (prog : Prog) (call : Ctx) (fuel : Nat) (ihE : ExprOK prog c
       split at hb
       · rename_i ibits pi env1 hi
         split at hb
-        · rename_i sub p1 env2 hu
-          simp only [Option.some.injEq, Prod.mk.injEq] at hb
-          obtain ⟨rfl, rfl, rfl⟩ := hb
-          have ihi := ihE ie env benv _ _ _ _ henv hi
-          simp only [evalPath]
-          cases hei : evalExpr fuel prog env ie with
-          | error er =>
-            rw [hei] at ihi
-            cases er with
-            | panic k => simp only [ResRel] at ihi; subst ihi; rfl
-            | stuck w => exact ihi.elim
-            | fuel => trivial
-          | ok res =>
-            obtain ⟨vi, enva⟩ := res
-            rw [hei] at ihi
-            obtain ⟨rfl, hreli, henv1⟩ := ihi
-            obtain ⟨m, rfl, hm0, hmn⟩ := Rel.usize_index hreli
-            simp only [show ¬ m < 0 by omega, if_false]
-            cases cur with
-            | array vs =>
-              have h1 : vs.length = n ∧ vs.allHaveType te = true := by simpa [Val.hasType] using hcur
-              rw [hmn] at hu ⊢
-              rcases Nat.lt_or_ge m.toNat n with hlt | hge
-              · obtain ⟨c, hg, hc, hslice⟩ := allHaveType_nth te vs m.toNat h1.2 (by omega)
-                simp only [hlt, if_true, Val.encode] at hu ⊢
-                rw [hslice] at hu
-                have ih := ihP rest enva env1 te c vt vb sub p1 env2 henv1 hc hu
-                simp only [hg]
-                cases hev : evalPath fuel prog enva c rest with
-                | error er =>
-                  rw [hev] at ih
-                  cases er with
-                  | panic k => simpa [seqP] using ih
-                  | stuck w => exact ih.elim
-                  | fuel => trivial
-                | ok res2 =>
-                  obtain ⟨steps, envb⟩ := res2
-                  rw [hev] at ih
-                  obtain ⟨hp, henv2, hupd⟩ := ih
-                  refine ⟨by simp [seqP, hp], henv2, ?_⟩
-                  intro v hv
-                  obtain ⟨w, hw1, hw2, hw3⟩ := hupd v hv
-                  obtain ⟨hs0, hs1, hs2⟩ := allHaveType_set te vs m.toNat w h1.2 (by omega) hw2
-                  refine ⟨.array (ValList'.set vs m.toNat w), by simp [updateAt, hg, hw1], ?_, ?_⟩
-                  · simp [Val.hasType, hs0, h1.1, hs1]
-                  · simp only [Val.encode, hs2, hw3]
-              · simp only [get?_none_of_le vs m.toNat (by omega), show ¬ m.toNat < n by omega, if_false, seqP]
-            | _ => simp [Val.hasType] at hcur
+        · rename_i hn
+          split at hb
+          · rename_i sub p1 env2 hu
+            simp only [Option.some.injEq, Prod.mk.injEq] at hb
+            obtain ⟨rfl, rfl, rfl⟩ := hb
+            have ihi := ihE ie env benv _ _ _ _ henv hi
+            simp only [evalPath]
+            cases hei : evalExpr fuel prog env ie with
+            | error er =>
+              rw [hei] at ihi
+              cases er with
+              | panic k => simp only [ResRel] at ihi; subst ihi; rfl
+              | stuck w => exact ihi.elim
+              | fuel => trivial
+            | ok res =>
+              obtain ⟨vi, enva⟩ := res
+              rw [hei] at ihi
+              obtain ⟨rfl, hreli, henv1⟩ := ihi
+              obtain ⟨m, rfl, hm0, hmn⟩ := Rel.usize_index hreli
+              simp only [show ¬ m < 0 by omega, if_false]
+              cases cur with
+              | array vs =>
+                have h1 : vs.length = n ∧ vs.allHaveType te = true := by simpa [Val.hasType] using hcur
+                have hal : ((Val.array vs).encode (.array te n)).length = n * te.size := by
+                  have := Val.encode_length (.array vs) (.array te n) hcur
+                  simpa [Ty.size, Nat.mul_comm] using this
+                have htn : Arith.toNat ibits = m.toNat := by rw [← bitsToNat_eq_toNat, hmn]
+                rw [index_lt ibits n hn, hmn]
+                rcases Nat.lt_or_ge m.toNat n with hlt | hge
+                · obtain ⟨c, hg, hc, hslice⟩ := allHaveType_nth te vs m.toNat h1.2 (by omega)
+                  have hsel := index_sel te.size n _ ibits hal (by rw [htn]; exact hlt)
+                  rw [htn] at hsel
+                  rw [hsel] at hu
+                  simp only [Val.encode] at hu hslice ⊢
+                  rw [hslice] at hu
+                  have ih := ihP rest enva env1 te c vt vb sub p1 env2 henv1 hc hu
+                  simp only [hg, hlt, decide_true, if_true]
+                  cases hev : evalPath fuel prog enva c rest with
+                  | error er =>
+                    rw [hev] at ih
+                    cases er with
+                    | panic k => simpa [seqP] using ih
+                    | stuck w => exact ih.elim
+                    | fuel => trivial
+                  | ok res2 =>
+                    obtain ⟨steps, envb⟩ := res2
+                    rw [hev] at ih
+                    obtain ⟨hp, henv2, hupd⟩ := ih
+                    refine ⟨by simp [seqP, hp], henv2, ?_⟩
+                    intro v hv
+                    obtain ⟨w, hw1, hw2, hw3⟩ := hupd v hv
+                    obtain ⟨hs0, hs1, hs2⟩ := allHaveType_set te vs m.toNat w h1.2 (by omega) hw2
+                    refine ⟨.array (ValList'.set vs m.toNat w), by simp [updateAt, hg, hw1], ?_, ?_⟩
+                    · simp [Val.hasType, hs0, h1.1, hs1]
+                    · have hsub : sub.length = te.size := by rw [hw3]; exact Val.encode_length w te hw2
+                      have hwf := writeAll_flat te.size ibits sub hsub n (vs.encodeAll te) 0
+                        (by simpa [Val.encode] using hal) (by omega)
+                      simp only [Val.encode, hs2, ← hw3]
+                      rw [hwf, htn, if_pos ⟨Nat.zero_le _, by omega⟩]
+                      simp
+                · simp only [get?_none_of_le vs m.toNat (by omega), show ¬ m.toNat < n by omega, decide_false,
+                    Bool.false_eq_true, if_false, seqP]
+              | _ => simp [Val.hasType] at hcur
+          · simp at hb
         · simp at hb
       · simp at hb
     · simp at hb
